@@ -22,6 +22,7 @@ PROPERTY = {
             "Startup::serialize": "STARTUP body == the [string map] of the options: every option exactly once, nothing else",
             "Batch::do_serialize": "BATCH body == <type [byte]><n [short]> n entries then <consistency [short]><flags [byte]>[<serial consistency [short]>][<timestamp [long]>]: as many entries as statements, the i-th entry starts with the i-th statement's <kind><string | id> followed by a 2-byte value count and the values; flags == exactly the presence bits 0x10 | 0x20; type byte per BatchType; more than 65535 statements refused (existential over the per-entry value bytes, loop invariant with a ghost sequence of entries; the back-patched count field is proved to overwrite exactly the two reserved bytes)",
             "Batch::serialize": "as do_serialize, through the error conversion",
+            "RegisterV2::serialize": "the same for REGISTER with EventTypeV2 event types",
             "Register::serialize": "REGISTER body == [string list] of the protocol names of the requested event types, in order (loop invariant over the constructed name list)",
             "write_string_list": "[string list] == [short] n ++ the n strings as [string], in order (loop invariant over the list prefix); Ok <=> n and every string fit 16 bits",
             "SerializedRequest::make": "header: version 4, flags exactly compression|tracing, opcode, length == body size; body == request serialization when uncompressed",
@@ -37,5 +38,5 @@ PROPERTY = {
     ],
     "trusted_base": ["Verus/Z3 soundness", "bytes::BufMut append-only big-endian contract", "Cow<T> deref, str::len, to_be_bytes, slice copy_from_slice (external_body)", "compress_append only appends"],
     "assumptions": ["obeys_key_model::<Cow<str>>() (precondition of the STARTUP contract: the option keys behave as hash-map keys)", "the extractor's name-impl-trait and iter-map-collect rules", "Display of EventType is an uninterpreted name"],
-    "not_covered": ["the value bytes inside a BATCH entry (produced by the RawBatchValues iterator: only append-only-ness is assumed) and that the 2-byte count equals the number of values written (RowWriter::value_count, proved in the C01 unit); RegisterV2 (same code shape as Register, not extracted)", "LZ4/Snappy round trip", "bodies >= 4 GiB (length cast truncates; far above the protocol's frame limit)"],
+    "not_covered": ["the value bytes inside a BATCH entry (produced by the RawBatchValues iterator: only append-only-ness is assumed) and that the 2-byte count equals the number of values written (RowWriter::value_count, proved in the C01 unit)", "LZ4/Snappy round trip", "bodies >= 4 GiB (length cast truncates; far above the protocol's frame limit)"],
 }
